@@ -58,6 +58,7 @@ pub open spec fn wire_slice(t: u8, sequence: u64, channel_id: u8, message_id: u6
     seq![t] + enc(sequence) + seq![channel_id] + enc(message_id) + enc(slice_index) + enc(num_slices) + blob(payload)
 }
 
+#[verifier::opaque]
 pub open spec fn wire(p: PacketV) -> Seq<u8> {
     match p {
         PacketV::SmallReliable { sequence, channel_id, messages } =>
@@ -76,10 +77,12 @@ pub open spec fn wire(p: PacketV) -> Seq<u8> {
 }
 
 /// ascending, non-empty ranges below 2^62, disjoint and non-adjacent
+#[verifier::opaque]
 pub open spec fn rangesv_wf(s: Seq<(u64, u64)>) -> bool {
     &&& forall|i: int| 0 <= i < s.len() ==> (#[trigger] s[i]).0 < s[i].1 && s[i].1 <= lim()
     &&& forall|i: int, j: int| 0 <= i < j < s.len() ==> (#[trigger] s[i]).1 < (#[trigger] s[j]).0
 }
+#[verifier::opaque]
 pub open spec fn rangesv_desc_wf(s: Seq<(u64, u64)>) -> bool {
     &&& forall|i: int| 0 <= i < s.len() ==> (#[trigger] s[i]).0 < s[i].1 && s[i].1 <= lim()
     &&& forall|i: int, j: int| 0 <= i < j < s.len() ==> (#[trigger] s[j]).1 < (#[trigger] s[i]).0
@@ -344,6 +347,7 @@ pub proof fn lemma_parse_ack_roundtrip(d: Seq<(u64, u64)>, i: int, tail: Seq<u8>
     ensures parse_ack_ranges(wire_ack_tail(d, i) + tail, (d.len() - i) as nat, d[i - 1].0, d.take(i)) == Some((d, tail)),
     decreases d.len() - i,
 {
+    reveal(rangesv_desc_wf);
     if i == d.len() {
         assert(wire_ack_tail(d, i) + tail =~= tail);
         assert(d.take(i) =~= d);
@@ -365,6 +369,7 @@ pub proof fn lemma_reverse_wf(s: Seq<(u64, u64)>)
     requires rangesv_wf(s),
     ensures rangesv_desc_wf(s.reverse()), s.reverse().reverse() == s,
 {
+    reveal(rangesv_wf); reveal(rangesv_desc_wf);
     let r = s.reverse();
     assert forall|i: int| 0 <= i < r.len() implies (#[trigger] r[i]).0 < r[i].1 && r[i].1 <= lim() by {
         assert(r[i] == s[s.len() - 1 - i]);
@@ -381,6 +386,7 @@ pub proof fn lemma_roundtrip(p: PacketV, tail: Seq<u8>)
     requires wire_ok(p),
     ensures parse(wire(p) + tail) == Some((p, tail)),           // @C16 wire_format.parse_inverts_wire
 {
+    reveal(wire);
     match p {
         PacketV::SmallReliable { sequence, channel_id, messages } => {
             lemma_small_reliable_roundtrip(sequence, channel_id, messages, tail);
@@ -404,6 +410,7 @@ pub proof fn lemma_small_reliable_roundtrip(sequence: u64, channel_id: u8, messa
     requires wire_ok(PacketV::SmallReliable { sequence, channel_id, messages }),
     ensures parse(wire(PacketV::SmallReliable { sequence, channel_id, messages }) + tail) == Some((PacketV::SmallReliable { sequence, channel_id, messages }, tail)),
 {
+    reveal(wire);
     let p = PacketV::SmallReliable { sequence, channel_id, messages };
     let x4 = wire_rel_msgs(messages) + tail;
     let x3 = octets::u16_be(messages.len() as u16) + x4;
@@ -423,6 +430,7 @@ pub proof fn lemma_small_unreliable_roundtrip(sequence: u64, channel_id: u8, mes
     requires wire_ok(PacketV::SmallUnreliable { sequence, channel_id, messages }),
     ensures parse(wire(PacketV::SmallUnreliable { sequence, channel_id, messages }) + tail) == Some((PacketV::SmallUnreliable { sequence, channel_id, messages }, tail)),
 {
+    reveal(wire);
     let p = PacketV::SmallUnreliable { sequence, channel_id, messages };
     let x4 = wire_unrel_msgs(messages) + tail;
     let x3 = octets::u16_be(messages.len() as u16) + x4;
@@ -442,6 +450,8 @@ pub proof fn lemma_ack_roundtrip(sequence: u64, ranges: Seq<(u64, u64)>, tail: S
     requires wire_ok(PacketV::Ack { sequence, ranges }),
     ensures parse(wire(PacketV::Ack { sequence, ranges }) + tail) == Some((PacketV::Ack { sequence, ranges }, tail)),
 {
+    reveal(rangesv_desc_wf);
+    reveal(wire);
     let p = PacketV::Ack { sequence, ranges };
     lemma_reverse_wf(ranges);
     let d = ranges.reverse();
@@ -486,6 +496,72 @@ pub proof fn lemma_slice_roundtrip(t: u8, sequence: u64, channel_id: u8, message
     lemma_p_var(num_slices, x6);
     lemma_p_blob(payload, tail);
 }
+/// entries 1..i of the descending list, in writing order (what the encoder has put after i-1 rounds of its loop)
+pub open spec fn wire_ack_upto(d: Seq<(u64, u64)>, i: int) -> Seq<u8>
+    decreases i,
+{
+    if i <= 1 || i > d.len() { Seq::empty() } else {
+        wire_ack_upto(d, i - 1) + (enc((d[i - 2].0 - d[i - 1].1 - 1) as u64) + enc((d[i - 1].1 - 1 - d[i - 1].0) as u64))
+    }
+}
+
+pub proof fn lemma_ack_upto_tail(d: Seq<(u64, u64)>, i: int)
+    requires 1 <= i <= d.len(),
+    ensures wire_ack_upto(d, i) + wire_ack_tail(d, i) == wire_ack_tail(d, 1),
+    decreases i,
+{
+    if i == 1 {
+        assert(wire_ack_upto(d, 1) + wire_ack_tail(d, 1) =~= wire_ack_tail(d, 1));
+    } else {
+        lemma_ack_upto_tail(d, i - 1);
+        let e = enc((d[i - 2].0 - d[i - 1].1 - 1) as u64) + enc((d[i - 1].1 - 1 - d[i - 1].0) as u64);
+        assert(wire_ack_upto(d, i) == wire_ack_upto(d, i - 1) + e);
+        assert(wire_ack_tail(d, i - 1) =~= e + wire_ack_tail(d, i));
+        assert((wire_ack_upto(d, i - 1) + e) + wire_ack_tail(d, i) =~= wire_ack_upto(d, i - 1) + (e + wire_ack_tail(d, i)));
+    }
+}
+
+/// ranges_wf of the concrete list is rangesv_wf of its view
+pub proof fn lemma_ranges_view_wf(s: Seq<core::ops::Range<u64>>)
+    requires ranges_wf(s),
+    ensures rangesv_wf(ranges_view(s)),
+{
+    reveal(rangesv_wf); reveal(ranges_wf);
+    let v = ranges_view(s);
+    assert forall|i: int| 0 <= i < v.len() implies (#[trigger] v[i]).0 < v[i].1 && v[i].1 <= lim() by { assert(s[i].start < s[i].end); }
+    assert forall|i: int, j: int| 0 <= i < j < v.len() implies (#[trigger] v[i]).1 < (#[trigger] v[j]).0 by { assert(s[i].end < s[j].start); }
+}
+
+pub proof fn lemma_ack_upto_len(d: Seq<(u64, u64)>, i: int)
+    requires rangesv_desc_wf(d), 1 <= i <= d.len(),
+    ensures wire_ack_upto(d, i).len() <= 16 * (i - 1),
+    decreases i,
+{
+    reveal(rangesv_desc_wf);
+    broadcast use octets::axiom_varint_enc_len;
+    if i > 1 {
+        lemma_ack_upto_len(d, i - 1);
+        assert(d[i - 1].1 < d[i - 2].0);
+    }
+}
+
+/// C13: an acknowledgement packet with at most 64 well-formed ranges serializes to at most 1 + 4*8 + 63*16 = 1041 bytes
+pub proof fn lemma_ack_wire_len_bound(sequence: u64, ranges: Seq<(u64, u64)>)
+    requires wire_ok(PacketV::Ack { sequence, ranges }), ranges.len() <= 64,
+    ensures wire(PacketV::Ack { sequence, ranges }).len() <= 1041,          // @C13 wire_format.ack_packet_at_most_1041_bytes
+{
+    reveal(rangesv_wf); reveal(rangesv_desc_wf);
+    reveal(wire);
+    broadcast use octets::axiom_varint_enc_len;
+    lemma_reverse_wf(ranges);
+    let d = ranges.reverse();
+    lemma_ack_upto_tail(d, d.len() as int);
+    lemma_ack_upto_len(d, d.len() as int);
+    assert(wire_ack_tail(d, d.len() as int) =~= Seq::<u8>::empty());
+    assert(wire_ack_upto(d, d.len() as int) + Seq::<u8>::empty() =~= wire_ack_upto(d, d.len() as int));
+    assert(wire_ack_tail(d, 1).len() <= 16 * 63);
+}
+
 pub mod seq_assoc {
     use vstd::prelude::*;
     verus! {
